@@ -23,14 +23,14 @@ TXT = {
  "C12": "Exhaustive search of fifo incl. erase of head/middle/tail and iterator-pair overloads; victim must be the resident with the smallest model insertion sequence number.",
  "C13": "Exhaustive search of mru; victim must be the resident with the largest model recency.",
  "C14": "Exhaustive search of lfuda with the virtual clock around the tick boundary (age == tick is not aged, one step more is), several tick/ratio settings; at every aging point the model ages exactly the entries idle strictly longer than the tick; dynamically_age()'s return value, all use counts and the victim are compared.",
- "C15": "Exhaustive search of rr where every evicting insert - single, or an insert_range that overflows the cache by one - is branched over 12 equal quantiles of the mt19937 output range (generator reseeded through -fno-access-control); each branch must lose exactly one prior resident, and over the 12 branches every resident must be chosen exactly 12/n times - exhausting the random source instead of sampling it; a second eviction drawn from the advanced generator stream must not hit the first one's position for all 12 seeds.",
+ "C15": "Exhaustive search of rr where every evicting insert - single, or an insert_range that overflows the cache by one - is branched over 12 equal quantiles of the mt19937 output range (generator reseeded through -fno-access-control); each branch must lose exactly one prior resident, and over the 12 branches every resident must be chosen exactly 12/n times - exhausting the random source instead of sampling it; a second eviction drawn from the advanced generator stream must not hit the first one's position for all 12 seeds. At scale (capacities 48 to 131073, freshly filled): one victim per quantile branch and the 12 victims fall one into each of the 12 equal blocks of positions.",
  "C16": "Exhaustive search of tlru/utlru incl. update_ttl shortening/lengthening; an insert of a new key into a full cache that holds at least one expired resident (size()==capacity() and fewer live keys than capacity) must lose no live key.",
  "C17": "Exhaustive search of the four TTL containers; after clean_expired_values() size() must equal the number of live keys, no live key may be lost, the return value must equal the drop of size(); ut_map/ut_set additionally size()==live right after every call and erase of an expired key must fail. Plus the concurrent clocked programs: clean must not leave an entry resident past its recorded deadline.",
  "C18": "Product (twin instance) search: from every reachable state and every range call, A = state + range call, B = state + the same elements as single calls at the frozen clock; counts / per-element results must agree and A, B are then explored as a pair over the whole alphabet with all public outputs compared until their concrete states coincide (fixpoint) - every continuation, not a sampled one.",
  "C19": "Product search: from every reachable state and every call that turned out to be a peek lookup, a missing lookup, a rejected insert or an erase of an absent key, A = state + call, B = state; the pair is explored to fixpoint with all outputs compared (TTL containers: size()/clean count not compared, update-only insert / erase addressed to a key already expired at the root may differ).",
  "C20": "Product search for utlru/ut_map: from every reachable state A = state + clear(), B = a newly constructed container with the same capacity and the TTL currently configured; size()==0, empty scan, then pair exploration to fixpoint.",
 }
-E2_NOTE = ("Bounded: <= 3 threads x <= 2 operations, capacity 2, 3 colliding keys, preemption bound 2 for the longer programs (all schedules for 2x1 and 3x1), "
+E2_NOTE = ("Bounded: <= 3 threads x <= 2 operations, capacity 2, 3 colliding keys, preemption bound 2 for the longer programs (all schedules for 2x1 and 3x1), long-range programs (one call over 130 or 4200 entries - ranges, clean, age, clear - against one or two single calls; the 4200 size in C07 only in the thorough tier), "
            "clock constant while calls overlap. Trusted: glibc symbol interposition of pthread_mutex_lock/unlock, the serialising scheduler (src/vsched.c), sanitizer runtimes; "
            "schedule points at synchronisation operations only (complete for data-race-free code, which C07 establishes); sequential consistency.")
 checks = []
